@@ -322,3 +322,100 @@ Theorem deep_copy_fresh : forall fuel h l h' c,
   (forall x, reach h' c x -> List.length h <= x) /\
   (forall a x, a < List.length h -> reach h' a x -> reach h a x).
 Proof. intros fuel h l h' c Hc _ E. eapply deep_copy_fresh_any; eauto. Qed.
+
+(* ------------------------------------------------------------------ *)
+(* 3. the invariant (definition; preservation is proved below)          *)
+(* ------------------------------------------------------------------ *)
+
+Definition good (s : astate) : Prop :=
+  heap_closed (a_heap s) /\ separated s /\
+  (forall u, In u (a_user s) -> u < List.length (a_heap s)) /\
+  (forall r, In r (a_rec s) -> r < List.length (a_heap s)).
+
+(* ------------------------------------------------------------------ *)
+(* 6. an aliasing (or shallow) edge breaks it                           *)
+(* ------------------------------------------------------------------ *)
+
+(* invert a [reach] hypothesis over a concrete, acyclic heap down to equalities *)
+Ltac rinv H :=
+  let v := fresh "v" in let c := fresh "c" in
+  let G := fresh "G" in let I := fresh "I" in
+  apply reach_inv in H; destruct H as [H | (v & c & G & I & H)];
+  [ | vm_compute in G;
+      first [ discriminate G
+            | inversion G; subst v; simpl in I;
+              repeat (destruct I as [I|I]; [subst c; rinv H | ]); try contradiction ] ].
+
+Ltac closed_concrete :=
+  let l := fresh "l" in let v := fresh "v" in let c := fresh "c" in
+  let G := fresh "G" in let I := fresh "I" in
+  intros l v c G I;
+  repeat (destruct l as [|l];
+          [ vm_compute in G; inversion G; subst v; simpl in I; simpl; intuition lia | ]);
+  vm_compute in G; discriminate G.
+
+(* a record holds the list [1]; user code holds the atom [0] *)
+Definition alias_s0 : astate :=
+  {| a_heap := [HAtom 1; HList []]; a_user := [0]; a_rec := [1] |}.
+
+Lemma alias_s0_good : good alias_s0.
+Proof.
+  unfold good, alias_s0; simpl. repeat split.
+  - closed_concrete.
+  - intros l (u & Iu & Ru) (r & Ir & Rr); simpl in *.
+    destruct Iu as [<-|[]]. destruct Ir as [<-|[]].
+    rinv Ru. rinv Rr. congruence.
+  - intros u [<-|[]]; lia.
+  - intros r [<-|[]]; lia.
+Qed.
+
+(* hand the list out through an Alias edge; the user then appends to it *)
+Theorem alias_out_breaks : exists s st1 st2 r,
+  good s /\ In r (a_rec s) /\ legal s st1 /\ legal (astep_run Deep Alias 5 s st1) st2 /\
+  hget (a_heap (astep_run Deep Alias 5 (astep_run Deep Alias 5 s st1) st2)) r <> hget (a_heap s) r.
+Proof.
+  exists alias_s0, (SOut 1), (SMutate 1 (HList [0])), 1.
+  split; [apply alias_s0_good|]. split; [simpl; auto|]. split; [|split].
+  - exists 1. split; [simpl; auto|]. apply reach_refl. simpl; lia.
+  - simpl. split; [|split].
+    + exists 1. split; [simpl; auto|]. apply reach_refl. simpl; lia.
+    + intros c [<-|[]]. exists 0. split; [simpl; auto|]. apply reach_refl. simpl; lia.
+    + exists (HList []). split; auto.
+  - vm_compute. discriminate.
+Qed.
+
+(* a record holds the nested list [2] = [[1]] *)
+Definition shallow_s0 : astate :=
+  {| a_heap := [HAtom 1; HList []; HList [1]]; a_user := [0]; a_rec := [2] |}.
+
+Lemma shallow_s0_good : good shallow_s0.
+Proof.
+  unfold good, shallow_s0; simpl. repeat split.
+  - closed_concrete.
+  - intros l (u & Iu & Ru) (r & Ir & Rr); simpl in *.
+    destruct Iu as [<-|[]]. destruct Ir as [<-|[]].
+    rinv Ru. rinv Rr; congruence.
+  - intros u [<-|[]]; lia.
+  - intros r [<-|[]]; lia.
+Qed.
+
+(* With a Shallow edge the record's top-level object is copied, so the root
+   itself keeps its contents; what breaks is an object *reachable* from the
+   record root (the shared inner list): the statement is the Alias one with
+   [r] replaced by some [x] with [reach (a_heap s) r x]. *)
+Theorem shallow_out_breaks : exists s st1 st2 r x,
+  good s /\ In r (a_rec s) /\ reach (a_heap s) r x /\
+  legal s st1 /\ legal (astep_run Deep Shallow 5 s st1) st2 /\
+  hget (a_heap (astep_run Deep Shallow 5 (astep_run Deep Shallow 5 s st1) st2)) x <> hget (a_heap s) x.
+Proof.
+  exists shallow_s0, (SOut 2), (SMutate 1 (HList [0])), 2, 1.
+  split; [apply shallow_s0_good|]. split; [simpl; auto|]. split; [|split; [|split]].
+  - eapply reach_step; [reflexivity | simpl; auto | apply reach_refl; simpl; lia].
+  - exists 2. split; [simpl; auto|]. apply reach_refl. simpl; lia.
+  - simpl. split; [|split].
+    + exists 3. split; [simpl; auto|].
+      eapply reach_step; [reflexivity | simpl; auto | apply reach_refl; simpl; lia].
+    + intros c [<-|[]]. exists 0. split; [simpl; auto|]. apply reach_refl. simpl; lia.
+    + exists (HList []). split; auto.
+  - vm_compute. discriminate.
+Qed.
